@@ -171,7 +171,7 @@ Definition dt_nano v := let? '(_, n) := dt_local v in Ok (snd (nanos_to_subsecon
 Definition dt_set_date_with (f : Z -> Z -> res Z) (v : DT) (x : Z) : res DT :=
   let? '(days, nanoseconds) := dt_local v in
   let? new_days := f days x in
-  let? '(d, _) := remove_offset_from_dn new_days nanoseconds (dt_off v) in
+  let? '(d, _) := try_remove_offset_from_dn new_days nanoseconds (dt_off v) in
   Ok (mkDT d (dt_nanos v) (dt_off v)).
 Definition dt_set_year := dt_set_date_with set_year.
 Definition dt_set_month := dt_set_date_with set_month.
@@ -210,7 +210,7 @@ Definition dt_days_since (a b : DT) : Z :=
 Definition dt_set_time_with (f : Z -> Z -> res Z) (v : DT) (x : Z) : res DT :=
   let? '(days, nanos) := dt_local v in
   let? new_nanos := f nanos x in
-  let? '(d, n) := remove_offset_from_dn days new_nanos (dt_off v) in
+  let? '(d, n) := try_remove_offset_from_dn days new_nanos (dt_off v) in
   Ok (mkDT d n (dt_off v)).
 Definition dt_set_hour := dt_set_time_with set_hour.
 Definition dt_set_minute := dt_set_time_with set_minute.
